@@ -276,6 +276,7 @@ func (c *client) SendBatch(ctx context.Context, batch []hrpc.Call) (
 	var unretryableErrorSeen bool
 	var retries []hrpc.Call
 	backoff := backoffStart
+	serverErrorCount := 0
 
 	for {
 		// findClients reports errors by position in batch, which is
@@ -329,6 +330,17 @@ func (c *client) SendBatch(ctx context.Context, batch []hrpc.Call) (
 		// retries is empty), or the context is done.
 		if len(retries) == 0 || ctx.Err() != nil {
 			break
+		}
+		// Like in SendRPC, retry ServerError immediately to failover fast
+		// to another server, but start to backoff if it keeps happening.
+		for _, rpc := range retries {
+			if _, ok := res[rpcToRes[rpc]].Error.(region.ServerError); ok {
+				if serverErrorCount > 1 {
+					needBackoff = true
+				}
+				serverErrorCount++
+				break
+			}
 		}
 		if needBackoff {
 			sp.AddEvent("retrySleep")
